@@ -384,7 +384,10 @@ for _k, _v in MORE10.items():
 
 
 MORE11 = {
-    'C01': 'R01.26 line splitting keeps terminators; R01.25 also rejects diffs derived from difflib opcodes outside seq_difflib.',
+    'C01': 'R01.26 line splitting keeps terminators; R01.25 also rejects diffs derived from difflib opcodes outside seq_difflib; R01.27 no alignment predicate decides what a notebook differ reports.',
+    'C03': 'R03.1 also evaluates the leading asserts of _merge_concurrent_inserts with the abstract arguments of every call in the 36-type chunk model.',
+    'C18': 'R18.16 the global attributes location has no existence test.',
+    'C19': 'R19.14 recursive_update tabulated over 22 cases.',
     'C04': 'R04.15 /nbformat_minor is always take-max.',
     'C08': 'R08.17 file names are used verbatim (no expanduser / expandvars / abspath).',
     'C15': 'R15.19 take_max ranges over base, local, remote on both sides (R04.4); R15.20 decisions leave in validated() order (R09.2).',
